@@ -92,6 +92,8 @@ def plan_items(prop, tier, seed, ncases):
                 items.append(("directed", (base % 20000) * 100000 + 60000 + q, tier, prop))
             for q in range(_lim(len(directed.register_templates()))):
                 items.append(("directed", (base % 20000) * 100000 + 70000 + q, tier, prop))
+            for q in range(_lim(len(directed.manyclasses_templates()))):
+                items.append(("directed", (base % 20000) * 100000 + 30000 + q, tier, prop))
             for q in range(_lim(len(directed.vrace_templates()))):
                 items.append(("directed", (base % 20000) * 100000 + 50000 + q, tier, prop))
             npair = len(directed.pair_templates())
